@@ -72,6 +72,12 @@ fn edits_for(base: &Value, rng: &mut Rng, thorough: bool) -> Vec<FileEdit> {
         (json!([0, 40]), Mark::Malformed, "step beyond the domain"),
         (json!([0, 33]), Mark::Malformed, "2^step overflows"),
         (json!([30, 1]), Mark::Unknown, "first step 30"),
+        // a NON-ZERO first step (every shipped file has 0 there): the verifier refuses it later, but the
+        // parser must still hand over the heights the file implies (each layer below the FIRST step too)
+        (json!(std::iter::once(1u64).chain(steps[1..].iter().copied()).collect::<Vec<u64>>()), Mark::WellFormed, "first step 1, the rest as in the file"),
+        (json!(std::iter::once(3u64).chain(steps[1..].iter().copied()).collect::<Vec<u64>>()), Mark::WellFormed, "first step 3, the rest as in the file"),
+        (json!([2, 1, 2]), Mark::WellFormed, "first step 2"),
+        (json!(std::iter::once(60u64).chain(steps[1..].iter().copied()).collect::<Vec<u64>>()), Mark::Malformed, "first step beyond the domain"),
     ] {
         let mut v = base.clone();
         v["proof_parameters"]["stark"]["fri"]["fri_step_list"] = lst.clone();
